@@ -4,9 +4,9 @@ CFG = {
     "properties_file": "Properties/C21.v",
     "corr_files": ["Corr/C21.v"],
     "streams": [
-        S("C21", "drive_cache", 400, 20000),        # AttrCache histories
-        S("C21dir", "drive_cache", 300, 12000),     # DirCache histories
-        S("C21child", "drive_cache", 2500, 60000),  # isChildOf on byte strings
+        S("C21", "drive_cache", 400, 8000),        # AttrCache histories
+        S("C21dir", "drive_cache", 300, 5000),     # DirCache histories
+        S("C21child", "drive_cache", 2500, 30000),  # isChildOf on byte strings
         S("C21race", "drive_cache", 4, 12, race=True),  # concurrent stress (runtime half; -race in the thorough tier)
     ],
     "rule": "AttrCache / DirCache histories of 10-60 operations (Put, PutNegative, Get, Invalidate, InvalidateNegativeInDir, "
